@@ -325,7 +325,21 @@ Inductive outcome :=
 | ODelegated (ok : bool)      (* not an orbiter packet: the wrapped application's own acknowledgement *)
 | OPanic (site : string).
 
-Record recv_result := { rr_out : outcome; rr_world : world; rr_trace : list (call * bool); rr_moves : list move }.
+(* what a successful transfer asks the statistics to record: (source protocol, source counterparty,
+   destination protocol, destination counterparty, source denom, incoming, destination denom, outgoing) *)
+Record stat_rec := { sr_sp : Z; sr_sc : string; sr_dp : Z; sr_dc : string; sr_sdenom : string; sr_in : Z;
+                     sr_ddenom : string; sr_out : Z }.
+Definition stat_of (t : tattr) (f : forwarding) : option stat_rec :=
+  match f_attrs f with
+  | Some a => match counterparty_of a with
+              | Some cp => Some {| sr_sp := t_sp t; sr_sc := t_sc t; sr_dp := f_pid f; sr_dc := cp;
+                                   sr_sdenom := t_sdenom t; sr_in := t_samt t; sr_ddenom := t_ddenom t; sr_out := t_damt t |}
+              | None => None end
+  | None => None
+  end.
+
+Record recv_result := { rr_out : outcome; rr_world : world; rr_trace : list (call * bool); rr_moves : list move;
+                        rr_stat : option stat_rec (* ghost: the successful transfer as the statistics see it *) }.
 
 (* switches distinguishing the repaired code from the pinned commit (Props/Findings.v) *)
 Record variant := {
@@ -389,13 +403,20 @@ Definition result_of (w : world) (o : ostate) (ok : bool) (out : outcome) (s : p
   {| rr_out := out;
      rr_world := if ok then {| w_o := o; w_l := ps_l s |} else w;
      rr_trace := rev (ps_trace s);
-     rr_moves := if ok then rev (ps_moves s) else [] |}.
+     rr_moves := if ok then rev (ps_moves s) else [];
+     rr_stat := None |}.
+Definition with_stat (r : recv_result) (st : option stat_rec) : recv_result :=
+  {| rr_out := rr_out r; rr_world := rr_world r; rr_trace := rr_trace r; rr_moves := rr_moves r; rr_stat := st |}.
 
 (* steps 4 (sweep), 5 (ICS-20 credit) and 7 (dispatch) of OnRecvPacket for a parsed orbiter packet *)
+(* bank GetBalance of the orbiter account (cannot fail) *)
+Definition read_balance (cfg : config) (lie : Z) (denom : string) : M Z :=
+  fun s => POk (bal (ps_l s) (cfg_orbiter cfg) denom + lie) s.
+
 Definition recv_body (vr : variant) (cfg : config) (acts : Z -> option action_ctrl) (e : env) (lie : Z)
-           (o : ostate) (p : packet) (pl : payload) (f : forwarding) (t : tattr) : M tattr := fun s0 =>
-  let prior := bal (ps_l s0) (cfg_orbiter cfg) (t_ddenom t) + lie in
-  (_ <- (if 0 <? prior
+           (o : ostate) (p : packet) (pl : payload) (f : forwarding) (t : tattr) : M tattr :=
+   prior <- read_balance cfg lie (t_ddenom t) ;;
+   _ <- (if 0 <? prior
          then ext_moving (CSweep (t_ddenom t) prior)
                          [MSend (cfg_orbiter cfg) (cfg_dust cfg) (t_ddenom t) prior] "sweep failed"
          else mret tt) ;;
@@ -408,7 +429,9 @@ Definition recv_body (vr : variant) (cfg : config) (acts : Z -> option action_ct
    _ <- run_forwarding_with (forward_ctrl_with (v_allow_self vr) (v_hyp_log_first vr)) cfg e lie
           (fun pid => smem cmp_z pid (paused_protos o))
           (fun pid cp => smem cmp_cc (pid, cp) (paused_cc o)) (Some f) t' ;;
-   mret t') s0.
+   mret t'.
+
+Arguments recv_body : simpl never.
 
 Definition pass_limit (o : ostate) : Z := match max_pass o with Some v => v | None => 0 end.
 
@@ -459,7 +482,7 @@ Definition recv_with (vr : variant) (cfg : config) (acts : Z -> option action_ct
                         | Err l => err l s
                         | Ok o' =>
                             let '(v, s') := ext (CEmit "EventPayloadProcessed") s in
-                            if v then result_of w o' true OAckOk s'
+                            if v then with_stat (result_of w o' true OAckOk s') (stat_of t' f)
                             else err "failed to emit payload processed event" s'
                         end
                     end
